@@ -45,6 +45,8 @@ def _snap_pi(x):
     """Fraction q with x ~= q*pi (|err| < 1e-12 relative), else None"""
     if x == 0:
         return Fraction(0)
+    if x != x or abs(x) > 1e6:
+        return None
     q = Fraction(x / math.pi).limit_denominator(720)
     if q != 0 and abs(float(q) * math.pi - x) <= 4e-16 * max(1.0, abs(x)) * 4:
         return q
